@@ -21,7 +21,7 @@ from . import persosim
 
 PROPERTY = "C07"
 TIERS = {
-    "quick": {"runs": 220, "budget_s": 115, "chunk": 3},
+    "quick": {"runs": 260, "budget_s": 115, "chunk": 3},
     "thorough": {"runs": 8000, "budget_s": 900, "chunk": 6},
 }
 REQUIRED_PROBES = {
